@@ -15,6 +15,34 @@ structure GoodStencil (bs : List (BPoint K)) : Prop where
   neg_closed : (bs.map BPoint.neg).Perm bs
   b1 : ∀ a c, mom2 bs a c = if a = c then 1 else 0
 
+/-- Main expansion WITHOUT the completeness relation: if the stencil is closed under negation and along the stencil
+    `f(k + b) = Ev(b) + Σ A1_a b_a + Σ A3_acd b_a b_c b_d` with `Ev` even, then the stencil returns
+    `Σ_a A1_a M2_ae + Σ A3_acd M4_acde`. -/
+theorem fd_odd_expansion_gen_aux (bs : List (BPoint K)) (hneg : (bs.map BPoint.neg).Perm bs) (f : V3 K → K) (k : V3 K)
+    (Ev : V3 K → K) (hEv : ∀ b, Ev (fun a => -b a) = Ev b)
+    (A1 : Fin 3 → K) (A3 : Fin 3 → Fin 3 → Fin 3 → K)
+    (hf : ∀ p ∈ bs, f (vadd k p.bred) = Ev p.bcart + sum3 (fun a => A1 a * p.bcart a)
+        + sum3 (fun a => sum3 (fun c => sum3 (fun d => A3 a c d * p.bcart a * p.bcart c * p.bcart d))))
+    (e : Fin 3) :
+    deriv3D f k e bs = sum3 (fun a => A1 a * mom2 bs a e)
+      + sum3 (fun a => sum3 (fun c => sum3 (fun d => A3 a c d * mom4 bs a c d e))) := by
+  rw [deriv3D_eq_mom f k e (fun b => Ev b + sum3 (fun a => A1 a * b a)
+        + sum3 (fun a => sum3 (fun c => sum3 (fun d => A3 a c d * b a * b c * b d)))) bs hf]
+  have hsplit : ∀ b : V3 K,
+      (Ev b + sum3 (fun a => A1 a * b a) + sum3 (fun a => sum3 (fun c => sum3 (fun d => A3 a c d * b a * b c * b d)))) * b e
+      = (Ev b * b e) + (sum3 (fun a => A1 a * (b a * b e))
+          + sum3 (fun a => sum3 (fun c => sum3 (fun d => A3 a c d * (b a * b c * b d * b e))))) := by
+    intro b; simp only [sum3]; ring
+  rw [mom_congr _ _ hsplit, mom_add, mom_add]
+  have hodd : mom (fun b => Ev b * b e) bs = 0 :=
+    mom_odd_zero _ (fun b => by rw [hEv]; ring) bs hneg
+  have hlin : mom (fun b => sum3 (fun a => A1 a * (b a * b e))) bs = sum3 (fun a => A1 a * mom2 bs a e) := by
+    simp only [sum3, mom2, mom_add, mom_smul]
+  have hcub : mom (fun b => sum3 (fun a => sum3 (fun c => sum3 (fun d => A3 a c d * (b a * b c * b d * b e))))) bs
+      = sum3 (fun a => sum3 (fun c => sum3 (fun d => A3 a c d * mom4 bs a c d e))) := by
+    simp only [sum3, mom4, mom_add, mom_smul]
+  rw [hodd, hlin, hcub, zero_add]
+
 /-- Main expansion.  If along the stencil `f(k + b) = Ev(b) + Σ A1_a b_a + Σ A3_acd b_a b_c b_d` with `Ev` even, then
     the stencil returns `A1_e + Σ A3_acd M4_acde`. -/
 theorem fd_odd_expansion_aux (bs : List (BPoint K)) (hs : GoodStencil bs) (f : V3 K → K) (k : V3 K)
@@ -24,23 +52,7 @@ theorem fd_odd_expansion_aux (bs : List (BPoint K)) (hs : GoodStencil bs) (f : V
         + sum3 (fun a => sum3 (fun c => sum3 (fun d => A3 a c d * p.bcart a * p.bcart c * p.bcart d))))
     (e : Fin 3) :
     deriv3D f k e bs = A1 e + sum3 (fun a => sum3 (fun c => sum3 (fun d => A3 a c d * mom4 bs a c d e))) := by
-  rw [deriv3D_eq_mom f k e (fun b => Ev b + sum3 (fun a => A1 a * b a)
-        + sum3 (fun a => sum3 (fun c => sum3 (fun d => A3 a c d * b a * b c * b d)))) bs hf]
-  -- split the integrand
-  have hsplit : ∀ b : V3 K,
-      (Ev b + sum3 (fun a => A1 a * b a) + sum3 (fun a => sum3 (fun c => sum3 (fun d => A3 a c d * b a * b c * b d)))) * b e
-      = (Ev b * b e) + (sum3 (fun a => A1 a * (b a * b e))
-          + sum3 (fun a => sum3 (fun c => sum3 (fun d => A3 a c d * (b a * b c * b d * b e))))) := by
-    intro b; simp only [sum3]; ring
-  rw [mom_congr _ _ hsplit, mom_add, mom_add]
-  have hodd : mom (fun b => Ev b * b e) bs = 0 :=
-    mom_odd_zero _ (fun b => by rw [hEv]; ring) bs hs.neg_closed
-  have hlin : mom (fun b => sum3 (fun a => A1 a * (b a * b e))) bs = sum3 (fun a => A1 a * mom2 bs a e) := by
-    simp only [sum3, mom2, mom_add, mom_smul]
-  have hcub : mom (fun b => sum3 (fun a => sum3 (fun c => sum3 (fun d => A3 a c d * (b a * b c * b d * b e))))) bs
-      = sum3 (fun a => sum3 (fun c => sum3 (fun d => A3 a c d * mom4 bs a c d e))) := by
-    simp only [sum3, mom4, mom_add, mom_smul]
-  rw [hodd, hlin, hcub, zero_add]
+  rw [fd_odd_expansion_gen_aux bs hs.neg_closed f k Ev hEv A1 A3 hf e]
   congr 1
   have := hs.b1
   fin_cases e <;> simp [sum3, this]
